@@ -225,7 +225,7 @@ Definition count_ok (l : list (outcome Z)) : Z := Z.of_nat (length (filter (fun 
 
 (* C06 for a run with no crash: drained at the end, everything written was delivered exactly once,
    in position order (hence in each producer's order), intact *)
-Definition holds_conc (cp p0 : Z) (pre : list op) (progs : list (list wreq)) (post : list op)
+Definition holds_conc_core (cp p0 : Z) (pre : list op) (progs : list (list wreq)) (post : list op)
   (obs : list out * list event * list tres * list out) : bool :=
   let '(o1, tr, res, o3) := obs in
   let '(h1, t1) := last_ht p0 o1 in
@@ -246,3 +246,80 @@ Definition holds_conc (cp p0 : Z) (pre : list op) (progs : list (list wreq)) (po
       end
   | [] => false
   end.
+
+(* ------------------------------------------------------------------------------------------
+   "A write is refused for lack of space only when the unconsumed bytes plus the record (and wrap padding)
+   really exceed the capacity", read off the trace: every InsufficientCapacity answer of a producer must be
+   justified - at some instant between the caller's first read (the head cache) and its return (its last read of
+   the head position) the real positions satisfied `no_room`.
+
+   A write call of thread tid shows in the trace as: GetVolatile(head cache) ... ; it is refused iff its last
+   access is a GetVolatile(head) (an accepted call goes on with PutOrdered(head cache) after a head read).  The
+   call that produces accesses number j of a thread is its j-th well-formed write (type >= 1, length <= cap/8).
+   Per refusal the walk yields (justified, overtaken): overtaken = the tail counter differs, at the head re-read,
+   from the tail value the caller read last (somebody claimed space in between). *)
+Record rthr := mkRthr { rt_calls : nat; rt_in : bool; rt_n : Z; rt_just : bool; rt_tl : Z; rt_pend : option (bool * bool) }.
+Definition rthr0 : rthr := mkRthr O false 0 false 0 None.
+
+Definition valid_lens (cp : Z) (prog : list wreq) : list Z :=
+  map len_of (filter (fun w => (1 <=? fst w) && (len_of w <=? cp / 8)) prog).
+
+Fixpoint upd_nth {A} (l : list A) (i : nat) (f : A -> A) : list A :=
+  match l, i with
+  | [], _ => []
+  | x :: r, O => f x :: r
+  | x :: r, S j => x :: upd_nth r j f
+  end.
+
+Definition is_gv (k : akind) (off target : Z) : bool := akind_eqb k GetVolatile && (off =? target).
+
+Fixpoint refusal_walk (cp : Z) (progs : list (list wreq)) (tr : list event) (h t : Z) (ths : list rthr)
+  (acc : list (bool * bool)) : list rthr * list (bool * bool) :=
+  match tr with
+  | [] => (ths, acc)
+  | (tid, k, off, len, v, v2, before) :: r =>
+      let i := Z.to_nat tid in
+      (* the positions after this access *)
+      let t' := if akind_eqb k CompareAndSetI64 && (off =? cp + TAIL_OFF) && (before =? v) then v2 else t in
+      let h' := if akind_eqb k PutOrdered && (off =? cp + HEAD_OFF) then v else h in
+      let me := nth i ths rthr0 in
+      let starts := is_gv k off (cp + HC_OFF) && (1 <=? tid) in
+      (* a pending head read of this thread: it was the end of a refused call iff a new call starts now *)
+      let acc1 := match rt_pend me with Some jo => if starts then acc ++ [jo] else acc | None => acc end in
+      let me1 := mkRthr (rt_calls me) (rt_in me) (rt_n me) (rt_just me) (rt_tl me) None in
+      let me2 :=
+        if starts then mkRthr (S (rt_calls me1)) true (nth (rt_calls me1) (valid_lens cp (nth (i - 1) progs [])) (-1)) false (rt_tl me1) None
+        else if is_gv k off (cp + TAIL_OFF) then mkRthr (rt_calls me1) (rt_in me1) (rt_n me1) (rt_just me1) before None
+        else if akind_eqb k PutOrdered && (off <? cp) && (len =? 4) then mkRthr (rt_calls me1) false (rt_n me1) (rt_just me1) (rt_tl me1) None
+        else me1 in
+      let ths1 := upd_nth ths i (fun _ => me2) in
+      (* every call in progress sees the new positions *)
+      let ths2 := map (fun x => if rt_in x then mkRthr (rt_calls x) true (rt_n x) (rt_just x || no_room cp h' t' (rt_n x)) (rt_tl x) (rt_pend x) else x) ths1 in
+      let ths3 :=
+        if is_gv k off (cp + HEAD_OFF) && (1 <=? tid)
+        then upd_nth ths2 i (fun x => mkRthr (rt_calls x) (rt_in x) (rt_n x) (rt_just x) (rt_tl x) (Some (rt_just x, negb (t' =? rt_tl x))))
+        else ths2 in
+      refusal_walk cp progs r h' t' ths3 acc1
+  end.
+
+(* the (justified, overtaken) pairs of all refusals of a run *)
+Definition refusal_verdicts (cp : Z) (progs : list (list wreq)) (tr : list event) (res : list tres) (h1 t1 : Z) : list (bool * bool) :=
+  let '(ths, acc) := refusal_walk cp progs tr h1 t1 (repeat rthr0 (S (length progs))) [] in
+  acc ++ flat_map (fun p => match rt_pend (fst p), snd p with Some jo, TProd _ => [jo] | _, _ => [] end) (combine ths res).
+
+Definition obs_verdicts (cp p0 : Z) (progs : list (list wreq)) (obs : list out * list event * list tres * list out) : list (bool * bool) :=
+  let '(o1, tr, res, o3) := obs in let '(h1, t1) := last_ht p0 o1 in refusal_verdicts cp progs tr res h1 t1.
+
+Definition refusals_ok (cp p0 : Z) (progs : list (list wreq)) (obs : list out * list event * list tres * list out) : bool :=
+  forallb fst (obs_verdicts cp p0 progs obs).
+
+Definition holds_conc (cp p0 : Z) (pre : list op) (progs : list (list wreq)) (post : list op)
+  (obs : list out * list event * list tres * list out) : bool :=
+  holds_conc_core cp p0 pre progs post obs && refusals_ok cp p0 progs obs.
+
+(* the known class refusal-on-stale-tail (KNOWN_FINDINGS.txt): everything else holds, some refusal is not justified, and every
+   unjustified refusal was decided by a caller that had been overtaken between its tail read and its head re-read *)
+Definition KnownClass_refusal_on_stale_tail_obs (cp p0 : Z) (pre : list op) (progs : list (list wreq)) (post : list op)
+  (obs : list out * list event * list tres * list out) : bool :=
+  let vs := obs_verdicts cp p0 progs obs in
+  holds_conc_core cp p0 pre progs post obs && existsb (fun jo => negb (fst jo)) vs && forallb (fun jo => fst jo || snd jo) vs.
